@@ -31,7 +31,8 @@ def run(rep, tier, seed):
             case_match(b, pd, shared_rules, klass='match-shared-ruler:' + stack, ruler=shared)
         for d in (DI.UP, DI.DOWN):
             pd.direction = d
-            base = gen_rule(rnd, pd, randbits(rnd, rnd.randint(1, 12)), direction=rnd.choice([DI.BIDIRECTIONAL, DI.BIDIRECTIONAL, d]))
+            from schc_util import KINDS as _K
+            base = gen_rule(rnd, pd, randbits(rnd, rnd.randint(1, 12)), kinds=_K + ('mapset',), direction=rnd.choice([DI.BIDIRECTIONAL, DI.BIDIRECTIONAL, d]))
             rules = [base]
             for _ in range(5):
                 m, k = mutate_rule(rnd, base, pd)
